@@ -47,6 +47,7 @@ struct XdhSim {
         Sess &S = ss[s]; Peer &P = S.peer[me];
         if (P.done) return;
         secp256k1_pubkey peer;
+        if (m.bytes.empty()) { r.probe("empty_record_dropped"); return; }   // nothing to hand to the parser (a NULL input pointer would be caller misuse)
         bool ok = L01(secp256k1_ec_pubkey_parse(ctx, &peer, m.bytes.data(), m.bytes.size()));
         ref::Pt mp; bool mok = ref::parse_pubkey(m.bytes.data(), m.bytes.size(), &mp);
         r.cmp();
